@@ -138,8 +138,8 @@ def run(tier):
     for c, vs, mode in ((crashes, cvecs, "ctor"), (crashes2, pvecs, "pair"), (crashes3, rv, "pair"), (crashes4, cv, "ctor"), (crashes5, fv, "pair")):
         for x in c:
             v = vs[x["crash"]]
-            chk.violate({"op": x["op"], "kind": "crash", "shape": "read_outside_argument"},
-                        "%s faulted on the guard page behind its argument" % x["op"], {"mode": mode, "op": x["op"], "a": v.get("a", []), "b": v["b"]})
+            chk.violate({"op": x["op"], "kind": "crash", "shape": U.crash_shape(x)[0]},
+                        "%s %s" % (x["op"], U.crash_shape(x)[1]), {"mode": mode, "op": x["op"], "a": v.get("a", []), "b": v["b"]})
     for r in recs:
         nontrivial.add((r["op"], tuple(r["a"]), tuple(r["b"])))
     chk.nontrivial = len(nontrivial)
